@@ -159,3 +159,19 @@ def is_mutable_plan_func(m, g):
     t, f_ = got.get(True), got.get(False)
     return (isinstance(t, ast.Name) and t.id == plan and isinstance(f_, ast.Call) and isinstance(f_.func, ast.Attribute) and f_.func.attr == "copy"
             and isinstance(f_.func.value, ast.Name) and f_.func.value.id == plan and not f_.args and not f_.keywords)
+
+
+
+def frame_token(m, tag):
+    """An abstract captured frame chain for evaluations: an instance of the package's frame class whose *innermost* location is the
+    same for every tag (captures made at one line of a helper) and whose outer frame differs by tag (different callers).  `.name` of
+    the returned object is the tag."""
+    from ..absval import Obj
+    sfc = m.one_class("StackFrame", "FRAME-TOKEN")
+    outer = Obj(sfc, {"name": f"caller_{tag}", "path": "/user/app.py", "line": 100 + sum(map(ord, tag)) % 800, "outer": None}, name=f"outer-of-{tag}")
+    return Obj(sfc, {"name": "build", "path": "/user/helpers.py", "line": 7, "outer": outer}, name=tag)
+
+
+def is_frame_token(v, tag):
+    from ..absval import Obj
+    return isinstance(v, Obj) and v.name == tag
